@@ -103,19 +103,33 @@ struct RcuImpl: IRcu {
             }
             case 6:
                 if (!me.wh) return misuse();
-                if (star) (*(*me.wh)).push_front(E(typename E::Quiet{}, a)); else (*me.wh)->push_front(E(typename E::Quiet{}, a));
+                if (a < 0) (*me.wh)->emplace_front(a);  // the throwing constructor is Elem(long): reached through emplace (the move constructor is noexcept)
+                else if (star) (*(*me.wh)).push_front(E(typename E::Quiet{}, a)); else (*me.wh)->push_front(E(typename E::Quiet{}, a));
                 return 0;
             case 7:
                 if (!me.wh) return misuse();
-                if (star) (*(*me.wh)).push_back(E(typename E::Quiet{}, a)); else (*me.wh)->push_back(E(typename E::Quiet{}, a));
+                if (a < 0) (*me.wh)->emplace_back(a);
+                else if (star) (*(*me.wh)).push_back(E(typename E::Quiet{}, a)); else (*me.wh)->push_back(E(typename E::Quiet{}, a));
                 return 0;
             case 8:
                 if (!me.wh) return misuse();
-                (*me.wh)->emplace_front(a);
+                if (star) {  // an LVALUE argument with a destructive move: emplace must forward it as an lvalue (copy)
+                    typename E::ESrc src{a};
+                    (*me.wh)->emplace_front(src);
+                    if (src.stolen) vs::S().emit(vs::K_FAULT, nullptr, 5);
+                } else {
+                    (*me.wh)->emplace_front(a);
+                }
                 return 0;
             case 9:
                 if (!me.wh) return misuse();
-                (*me.wh)->emplace_back(a);
+                if (star) {  // an LVALUE argument with a destructive move: emplace must forward it as an lvalue (copy)
+                    typename E::ESrc src{a};
+                    (*me.wh)->emplace_back(src);
+                    if (src.stolen) vs::S().emit(vs::K_FAULT, nullptr, 5);
+                } else {
+                    (*me.wh)->emplace_back(a);
+                }
                 return 0;
             case 10: {
                 auto it = me.its.find(a);
